@@ -75,6 +75,71 @@ func c04Variadic(first bool, fast bool) string {
 	return ""
 }
 
+// c04Many: a scope that holds more than a handful of types; one of them is registered again (Map / MapTo /
+// Set alike) and every type is resolved: the re-registered one gives the new value, all others their own.
+func c04Many(k int, api string) string {
+	type reg struct {
+		typ reflect.Type
+		mk  func(tag string) reflect.Value
+		to  interface{} // MapTo target, nil for Map
+	}
+	regs := []reg{
+		{c04TypT1, func(t string) reflect.Value { return reflect.ValueOf(c04T1{t}) }, nil},
+		{c04TypPT1, func(t string) reflect.Value { return reflect.ValueOf(&c04T1{t}) }, nil},
+		{c04TypT2, func(t string) reflect.Value { return reflect.ValueOf(c04T2{t}) }, nil},
+		{c04TypNS, func(t string) reflect.Value { return reflect.ValueOf(c04NS(t)) }, nil},
+		{c04TypI, func(t string) reflect.Value { return reflect.ValueOf(c04Both{t}) }, (*c04I)(nil)},
+		{c04TypJ, func(t string) reflect.Value { return reflect.ValueOf(c04JImpl{t}) }, (*c04J)(nil)},
+		{reflect.TypeOf(c04SVal{}), func(t string) reflect.Value { return reflect.ValueOf(c04SVal{t}) }, nil},
+		{reflect.TypeOf(&c04SPtr{}), func(t string) reflect.Value { return reflect.ValueOf(&c04SPtr{t}) }, nil},
+		{reflect.TypeOf(c04SMixed{}), func(t string) reflect.Value { return reflect.ValueOf(c04SMixed{t}) }, nil},
+		{c04STypSealed, func(t string) reflect.Value { return reflect.ValueOf(c04SVal{t}) }, (*c04Sealed)(nil)},
+		{reflect.TypeOf(""), func(t string) reflect.Value { return reflect.ValueOf(t) }, nil},
+		{reflect.TypeOf(0), func(t string) reflect.Value { return reflect.ValueOf(len(t)) }, nil},
+	}
+	put := func(inj inject.Injector, r reg, tag string, how string) {
+		v := r.mk(tag)
+		switch {
+		case how == "Set":
+			inj.Set(r.typ, v)
+		case r.to != nil:
+			inj.MapTo(v.Interface(), r.to)
+		default:
+			inj.Map(v.Interface())
+		}
+	}
+	inj := inject.New()
+	for _, r := range regs {
+		put(inj, r, "old", "Map")
+	}
+	put(inj, regs[k], "new-value", api)
+	for i, r := range regs {
+		want := fmt.Sprint(r.mk("old").Interface())
+		if i == k {
+			want = fmt.Sprint(r.mk("new-value").Interface())
+		}
+		got := inj.Value(r.typ)
+		if !got.IsValid() {
+			return fmt.Sprintf("after %d registrations and a second registration of %v: Value(%v) is not resolved", len(regs), regs[k].typ, r.typ)
+		}
+		g := got.Interface()
+		if got.Kind() == reflect.Ptr && !got.IsNil() {
+			g = got.Elem().Interface()
+			w := r.mk("old")
+			if i == k {
+				w = r.mk("new-value")
+			}
+			want = fmt.Sprint(w.Elem().Interface())
+		}
+		if fmt.Sprint(g) != want {
+			return fmt.Sprintf("after %d registrations and a second registration of %v through %s: Value(%v) = %v, expected %v", len(regs), regs[k].typ, api, r.typ, g, want)
+		}
+	}
+	return ""
+}
+
+const c04ManyTypes = 12
+
 type c04SealedTarget struct {
 	F c04Sealed `inject:""`
 	G c04Mixed  `inject:""`
@@ -285,6 +350,21 @@ func c04SealedPhase(r *core.Run) {
 					l.Violate(fmt.Sprintf("variadic-handler/fast=%v", fast), bad, c04Case{What: "variadic", Fast: fast, Target: map[bool]int{true: 1, false: 0}[first]})
 				} else {
 					l.Class("variadic-handler:unresolved")
+				}
+			}
+		}
+		for k := 0; k < c04ManyTypes; k++ {
+			for _, api := range []string{"Map", "Set"} {
+				l.Evals++
+				l.Transitions += c04ManyTypes + 1
+				l.Traces++
+				l.NonTrivial++
+				l.States++
+				if bad := c04Many(k, api); bad != "" {
+					l.Class("mismatch")
+					l.Violate("many-types/"+api, bad, c04Case{What: "many", Target: k, Fast: api == "Set"})
+				} else {
+					l.Class("many-types:re-registered")
 				}
 			}
 		}
